@@ -5,6 +5,7 @@ import IppModel.Model.Stream
 import IppModel.Model.Json
 import IppModel.Model.Cost
 import IppModel.Model.Http
+import IppModel.Model.Cli
 namespace Ipp.Ops2
 open Ipp Ipp.Gen Ipp.Text
 
@@ -277,6 +278,27 @@ def dispatch2 (op : String) (args : List SExp) : Option String :=
              | .other => "(err other)"
            s!"req={reqText} resp={respText}"
          | _, _, _ => "(bad-arg)")
+     | _, _ => "(bad-arg)")
+  | "cli", [.list (.atom "args" :: as), .atom doc, .list (.atom "answers" :: ans), c] =>
+    -- `cli (args (n 0|1) (j HEX)? (u HEX)? (o HEX)*) DOCHEX (answers (http)|MSG …) (c …)`
+    some (match hexToBytes doc, readComponents c with
+     | some document, some uri =>
+        let flag (k : String) : Option Bytes := as.findSome? fun (e : SExp) => match e with
+          | SExp.list [SExp.atom a, SExp.atom v] => if a == k then hexToBytes v else none
+          | _ => none
+        let opts : List Bytes := as.filterMap fun (e : SExp) => match e with
+          | SExp.list [SExp.atom "o", SExp.atom v] => hexToBytes v
+          | _ => none
+        let noCheck := as.any fun (e : SExp) => match e with | SExp.list [SExp.atom "n", SExp.atom "1"] => true | _ => false
+        let answers : Option (List Answer) := ans.mapM fun (e : SExp) => match e with
+          | SExp.list [SExp.atom "http"] => some Answer.httpError
+          | m => (readMsg m).map fun (h, gs) => Answer.response h (gs.map Group.canon)
+        (match answers with
+         | some answers =>
+           let a : PrintArgs := ⟨uri, noCheck, flag "j", flag "u", opts, document⟩
+           let (reqs, code) := cliPrint a answers
+           s!"exit={code} reqs=({" ".intercalate (reqs.map fun r => "(" ++ showReq r ++ ")")})"
+         | none => "(bad-arg)")
      | _, _ => "(bad-arg)")
   | "thm10", [.atom k, .atom _, .atom j, .atom p, .list (.atom "calls" :: calls), c] =>
     some (match opKindOf k, hexToNat j, hexToBytes p, calls.mapM readCall, readComponents c with
